@@ -540,6 +540,8 @@ func checkConc(c ConcCase) error {
 		place        string
 		ack, creq    int64
 		drain        int64
+		mu           sync.Mutex
+		lost         int32
 		received     []int32
 		closedInTime bool
 	}
@@ -568,18 +570,52 @@ func checkConc(c ConcCase) error {
 				done := make(chan struct{})
 				go func() {
 					for v := range ch {
+						rec.mu.Lock()
 						rec.received = append(rec.received, v)
+						rec.mu.Unlock()
 					}
 					close(done)
 				}()
 				// stay subscribed for a few emits
 				time.Sleep(time.Duration(200+gi*70+r*50) * time.Microsecond)
-				// before asking to cancel, let the pipeline drain: a barrier call on this
-				// connection. Only events emitted before this point are required:
-				// an event still in flight when cancel is requested may be dropped.
+				// Only events emitted before this point are required (an event still
+				// in flight when cancel is requested may be dropped). A barrier call on
+				// this connection puts them in the subscriber's pipeline; the harness
+				// keeps reading until they have all come out before it asks to cancel.
 				rec.drain = ltick()
 				px.GetDelay()
-				time.Sleep(300 * time.Microsecond)
+				emu.Lock()
+				var must []int32
+				for _, e := range emitted {
+					if e.start > rec.ack && e.end < rec.drain {
+						must = append(must, e.v)
+					}
+				}
+				emu.Unlock()
+				deadline := time.Now().Add(bound)
+				for {
+					rec.mu.Lock()
+					got := map[int32]bool{}
+					for _, v := range rec.received {
+						got[v] = true
+					}
+					rec.mu.Unlock()
+					missing := int32(0)
+					for _, v := range must {
+						if !got[v] {
+							missing = v
+							break
+						}
+					}
+					if missing == 0 {
+						break
+					}
+					if time.Now().After(deadline) {
+						rec.lost = missing
+						break
+					}
+					time.Sleep(50 * time.Microsecond)
+				}
 				rec.creq = ltick()
 				cancel()
 				select {
@@ -641,10 +677,8 @@ func checkConc(c ConcCase) error {
 			last = v
 			got[v] = true
 		}
-		for _, e := range emitted {
-			if e.start > r.ack && e.end < r.drain && !got[e.v] {
-				return vt.Violationf("C13:concurrent:lost-event", "subscriber on %s (acknowledged at %d, cancel requested at %d) did not receive event %d emitted during [%d,%d]; it received %v", r.place, r.ack, r.creq, e.v, e.start, e.end, r.received)
-			}
+		if r.lost != 0 {
+			return vt.Violationf("C13:concurrent:lost-event", "subscriber on %s (acknowledged at %d) did not receive event %d, emitted before its pre-cancel barrier at %d, within %v; it received %v", r.place, r.ack, r.lost, r.drain, bound, r.received)
 		}
 		for _, o := range recs {
 			if o != r && o.ack < r.creq && r.ack < o.creq {
